@@ -136,6 +136,7 @@ type World struct {
 
 	mu        sync.Mutex
 	servers   []*http.Server
+	byHost    map[string]*http.Server
 	authMux   *auth.AuthenticatorMux
 	proxyCfg  proxy.Configuration
 	Resolved  []*proxy.UpstreamConfig
@@ -236,6 +237,9 @@ func New(cfg Config, dir string) *World {
 					seen[b] = true
 					w.serve(b, w.Up.Handler(b), 0, 0)
 				}
+				if r.HMACKey != "" {
+					w.Up.HMACKeys[b] = r.HMACKey
+				}
 			}
 			addBackends(r.Extra)
 		}
@@ -266,6 +270,10 @@ func (w *World) serve(host string, h http.Handler, rt, wt time.Duration) *http.S
 	srv := &http.Server{Handler: h, ReadTimeout: rt, WriteTimeout: wt, ErrorLog: log.New(&lockedWriter{w: w.ServerErr}, host+" ", 0)}
 	w.mu.Lock()
 	w.servers = append(w.servers, srv)
+	if w.byHost == nil {
+		w.byHost = map[string]*http.Server{}
+	}
+	w.byHost[host] = srv
 	w.mu.Unlock()
 	go srv.Serve(l)
 	return srv
@@ -498,6 +506,18 @@ func (w *World) BootAuth() error {
 	w.serve(AuthHost, h, ac.ServerConfig.TimeoutConfig.Read, ac.ServerConfig.TimeoutConfig.Write)
 	w.authUp = true
 	return nil
+}
+
+// StopNode crashes a node: listener and every connection closed, in-flight requests see resets.
+func (w *World) StopNode(host string) {
+	w.mu.Lock()
+	srv := w.byHost[host]
+	delete(w.byHost, host)
+	w.mu.Unlock()
+	if srv != nil {
+		srv.Close()
+	}
+	w.Net.ResetHost(host)
 }
 
 // AuthCookieName is the authenticator's session cookie name for this world.
